@@ -6,6 +6,7 @@ import StyluaModel.Lemmas.Paren
 import StyluaModel.Lemmas.StrLit
 import StyluaModel.Lemmas.Parser
 import StyluaModel.Lemmas.TypeParen
+import StyluaModel.Lemmas.Block
 
 namespace StyluaModel.C02
 open StyluaModel StyluaModel.ParenRule StyluaModel.Prec StyluaModel.ParenLemmas Expr
@@ -109,5 +110,14 @@ example : TypeParen.fmtT TypeParen.current (fun _ => false) [] TypeParen.Ctx.new
 example : faithful (bin .star (paren (bin .plus (atom 0) (call 1))) (paren (atom 2))) = true := by decide
 example : fmtS repaired .std (bin .star (paren (bin .plus (atom 0) (call 1))) (paren (atom 2)))
     = bin .star (paren (bin .plus (atom 0) (call 1))) (atom 2) := by decide
+
+/-! ## statements -/
+
+/-- **same statements in the same order**: format_block emits exactly one result per statement of the block, in
+the order written - whatever the range, the ignore directives and the semicolons - for blocks of any length
+(require sorting, the one mechanism that reorders, is C12) -/
+theorem C02_stmt_order (r : Option Block.Range) (b : List Block.Stmt) :
+    (Block.fmtBlock Block.repaired r b).map (·.id) = b.map (·.id) :=
+  BlockLemmas.ids_preserved Block.repaired r false true b
 
 end StyluaModel.C02
